@@ -203,3 +203,9 @@ contract(MT + '_apply_annotations_property',
              'C03.property.type_kept_without_type_annotation':
                  "implies(block is None or not block.annotations.get('type'), prop.type is old(prop.type))",
          })
+
+
+# ---- block lookup -----------------------------------------------------------------------------------------------------
+contract(MT + '_get_block', params={'self': 'MainTransformer', 'node': 'Node'}, returns='GtkDocCommentBlock?', props=('C03',),
+         raises={'AssertionError': 'True'},
+         ensures={'C03.block.looked_up_by_annotation_name': 'result is self._blocks.get(self._get_annotation_name(node))'})
